@@ -222,6 +222,20 @@ def modelApplies (k : ModelKind) (pts : List Pt) : Bool :=
   | .iql .sum | .statecount _ => pts.all (fun p => match p.v with | .flt _ => false | _ => true)
   | _ => true
 
+/-- branches of `alertDetermine` taken by the points of one group (by isolation = what the group does alone) -/
+def alertBranches (pr : CountPred) (n : Nat) (brs : List String) : List String := Id.run do
+  let mut b := brs
+  let mut cnt := 0
+  let mut cur := 0
+  for _ in [0:n] do
+    let c1 := cnt + 1
+    if pr.eval c1 then b := addBr b "alert-first-eval-pass"
+    else if cur == 3 then b := addBr b (if pr.eval (c1 + 1) then "alert-second-eval-pass" else "alert-second-eval-fail")
+    else b := addBr b "alert-stays-ok"
+    let r := alertDetermine pr cnt cur
+    cnt := r.1; cur := r.2
+  return b
+
 def distinctKeys (ks : List String) : List String := ks.foldl (fun acc k => if acc.contains k then acc else acc ++ [k]) []
 
 def switches : List String → Nat
@@ -305,8 +319,14 @@ def judgeIso (lines : Array String) : Verdict := Id.run do
       if ptsOnly.any (fun p => match p.v.kind? with | some k => (determine meth k).isNone | none => false) then
         brs := addBr brs "iql-unsupported-kind"
       if switches (ptsOnly.map (fun p => s!"{p.key}|{p.time}")) < ptsOnly.length - 1 then brs := addBr brs "iql-equal-time-run"
-    | .alert _ =>
+      if (distinctKeys keys).any (fun k =>
+          (distinctKeys ((ptsOnly.filter (fun p => p.key == k)).filterMap (fun p => p.v.kind?.map (fun x => reprStr x)))).length ≥ 2) then
+        brs := addBr brs "iql-kind-change-in-group"
+      if m.any (fun t => t.endsWith "|i:0") then brs := addBr brs "iql-emit-zero"
+    | .alert pr =>
       if m.any (fun t => t.endsWith "|s:OK") then brs := addBr brs "alert-recovery"
+      for k in distinctKeys keys do
+        brs := alertBranches pr (keys.filter (· == k)).length brs
     | .statecount _ =>
       if m.length < ptsOnly.length then brs := addBr brs "statecount-eval-error-drop"
       if m.any (fun t => t.endsWith "|i:-1") then brs := addBr brs "statecount-reset"
